@@ -149,7 +149,8 @@ Definition Array : agg :=
 
 (* ---- distinct.go: zyedidia hashmap value -> pointer to distinctKey{count}, abstracted as an association list
    searched by "same hash and Compare == 0" (iteration order is never used by the code) ---- *)
-Definition hm_same (k v : value) : bool := (vhash k =? vhash v) && (vcompare k v =? 0).
+(* (the conjunction is written with [if] so that evaluation hashes only Compare-equal keys) *)
+Definition hm_same (k v : value) : bool := if vcompare k v =? 0 then vhash k =? vhash v else false.
 
 Fixpoint hm_get (m : list (value * Z)) (v : value) : option Z :=
   match m with
